@@ -190,8 +190,8 @@ def gen_e2e_case(rng, n):
         plants.append({'pw': u['pw'], 'host': u['host'], 'where': where})
         return u['uri']
 
-    stage = rng.choice(['init', 'init', 'init', 'ctor', 'run'])
-    if stage == 'run' and cls not in ('Filter', 'Util', 'Recorder'): stage = 'init'   # setup() of the others starts servers / network clients
+    stage = rng.choice(['init', 'init', 'init', 'ctor', 'run', 'loop'])
+    if stage in ('run', 'loop') and cls not in ('Filter', 'Util', 'Recorder'): stage = 'init'   # setup() of the others starts servers / network clients
     # the class's own URI option
     if cls in OWN and rng.random() < 0.75:
         opt, reckey, schemes, multi = OWN[cls]
@@ -227,6 +227,11 @@ def gen_e2e_case(rng, n):
     case = {'kind': 'e2e', 'cls': cls, 'stage': stage, 'as_cfg': rng.random() < 0.4, 'config': enc(cfg, (), []), 'plants': plants,
             'meta': cls in ('VideoIn', 'VideoOut')}
     if cls == 'VideoIn' and rng.random() < 0.4: case['open_fail'] = rng.randint(0, 3)
+    if stage == 'loop':
+        # an exception inside the loop whose message quotes a URI (what cv2 / paho / requests errors do), with loop_exc on or off and the
+        # logger at INFO or DEBUG: whatever Filter.run() writes about it (message, traceback) is captured
+        case['loop'] = {'quoted': rng.choice(['', 'failed to open ', 'cannot reach url=']) + uri('exc/loop') + rng.choice(['', ': connection refused', ' (giving up)']),
+                        'loop_exc': rng.random() < 0.4, 'debug': rng.random() < 0.5}
     return case
 
 
@@ -249,7 +254,8 @@ class _Env:
             def __init__(self, *a, **kw): pass
             def destroy(self): pass
             def send_exit_msg(self, *a, **kw): pass
-            def recv(self, *a, **kw): return None
+            ret = None
+            def recv(self, *a, **kw): return FakeMQ.ret
             def send(self, *a, **kw): return True
 
         class Client:
@@ -345,7 +351,21 @@ def run_e2e(env, case):
         return r
     if orig_norm is not None: cls.normalize_config = classmethod(norm)
     try:
-        if case['stage'] == 'run':
+        if case['stage'] == 'loop':
+            lp, nproc, root = case['loop'], [0], logging.getLogger()
+
+            def process(self_, frames):
+                nproc[0] += 1
+                if nproc[0] == 1: raise RuntimeError(lp['quoted'])
+                self_.stop_evt.set()
+            sub = type(cls.__name__, (cls,), {'process': process, '__module__': cls.__module__})
+            env.FakeMQ.ret = {}
+            if lp['debug']: root.setLevel(logging.DEBUG)
+            try: sub.run(cfg, loop_exc=lp['loop_exc'], stop_evt=threading.Event(), sig_stop=False)
+            except BaseException as e: obs['errors'].append(type(e).__name__)
+            finally: env.FakeMQ.ret = None; root.setLevel(logging.INFO)
+            obs['loop_calls'] = nproc[0]
+        elif case['stage'] == 'run':
             # the error path of Filter.run(): whatever init()/setup() raise is logged with logger.error(exc)
             stop = threading.Event(); stop.set()      # a valid configuration leaves the loop at once
             try: cls.run(cfg, stop_evt=stop, sig_stop=False)
@@ -438,6 +458,7 @@ def e2e_oracle(case, obs, hu, cfgcls):
                 if chan != 'errlog' and any(p['pw'] in s and p['pw'] in hu(s) for s in strings):
                     where_ = 'normalised-not-a-uri'     # the class's own normalisation cut the scheme off: the string masker gets 'user:password@host'
                 out.append((f'{chan}-leak:{where_}', f'{case["cls"]} ({case["stage"]}): password planted at {p["where"]} appears in {chan}: {line}'))
+        if where == 'exc/loop' and not obs.get('loop_calls'): continue      # the configuration was rejected before the loop started: the exception was never raised
         if where != 'hidden-key' and obs['logged_tree'] is not None and p['host'] not in obs['log']:
             out.append((f'log-host-lost:{where}', f'{case["cls"]}: host {p["host"]} planted at {where} is no longer readable in the log'))
     return out
@@ -481,6 +502,9 @@ def run(ctx):
                     tree = enc(obs['facets_input'], env.FilterConfig, others2)
                     if tree['t'] == 'c':
                         reqs.append({'op': 'c15.facets', 'tree': tree, 'word': word_chars(json.dumps(tree, ensure_ascii=False))}); slots.append((i, ('facets', others2)))
+                if c['stage'] == 'loop' and obs.get('loop_calls'):
+                    t = c['loop']['quoted']
+                    reqs.append({'op': 'c15.mask', 'text': t, 'word': word_chars(t)}); slots.append((i, ('errmsg', None)))
                 for s in obs['src_input']:
                     reqs.append({'op': 'c15.src', 'text': s, 'word': word_chars(s)}); slots.append((i, ('src', len([x for x in slots if x[0] == i and x[1][0] == 'src']))))
             dist[k] = dist.get(k, 0) + 1
@@ -526,6 +550,11 @@ def run(ctx):
                     mt = canon_tree(m['tree'], aux) if 'tree' in m else m
                     keys = {kv[0] for kv in mt['dict']} if isinstance(mt, dict) and 'dict' in mt else set()
                     it = canon_py({k: v for k, v in o['facets'].items() if k in keys or k not in VERSION_KEYS})
+                elif kind == 'errmsg':
+                    # the ERROR line(s) Filter.run() writes for an exception in the loop = the masked message
+                    mt = ustr(m.get('up'))
+                    errs = [l[6:] for l in o['log'].split('\n') if l.startswith('ERROR ')]
+                    it = mt if mt in errs else errs       # other ERROR lines (e.g. a lineage emit failure) may surround it
                 else:
                     mt, it = ustr(m.get('src')), (o['src'][aux] if aux < len(o['src']) else None)
                 if mt != it:
